@@ -88,3 +88,32 @@ pub fn server_capabilities() -> ServerCapabilities {
         ..ServerCapabilities::default()
     }
 }
+
+/// Verification seam (only compiled with `--cfg fuellabs_sway_verif`): a labelled point in front
+/// of every access to the state shared between the request handlers and the compilation thread
+/// (`is_compiling`, `retrigger_compilation`, the request channel, `finished_compilation`,
+/// `last_compilation_state`). Without an installed callback a point is a no-op.
+#[cfg(fuellabs_sway_verif)]
+pub mod verif {
+    use std::sync::OnceLock;
+
+    type PointFn = Box<dyn Fn(&'static str, Option<i32>) + Send + Sync>;
+    static POINT: OnceLock<PointFn> = OnceLock::new();
+
+    /// Installs the process-wide callback (first call wins).
+    pub fn set_point(f: PointFn) {
+        let _ = POINT.set(f);
+    }
+
+    pub(crate) fn point(label: &'static str) {
+        if let Some(f) = POINT.get() {
+            f(label, None);
+        }
+    }
+
+    pub(crate) fn point_version(label: &'static str, version: Option<i32>) {
+        if let Some(f) = POINT.get() {
+            f(label, version);
+        }
+    }
+}
